@@ -920,9 +920,11 @@ impl Ty {
                 Some(Ty::Float(*first_bit_width.max(second_bit_width)))
             }
             // distincts
+            // only something untyped (e.g. a literal) takes on the type of a distinct.
+            // a strongly typed `f32` doesn't mix with a `distinct f32`
             (non_distinct, Ty::Distinct { .. }) => {
                 assert_eq!(self, non_distinct);
-                if other.has_semantics_of(self) {
+                if non_distinct.might_be_weak() && other.has_semantics_of(self) {
                     Some(other.clone())
                 } else {
                     None
@@ -930,7 +932,7 @@ impl Ty {
             }
             (Ty::Distinct { .. }, non_distinct) => {
                 assert_eq!(other, non_distinct);
-                if self.has_semantics_of(non_distinct) {
+                if non_distinct.might_be_weak() && self.has_semantics_of(non_distinct) {
                     Some(self.clone())
                 } else {
                     None
